@@ -83,12 +83,14 @@ func renderDevice(d uhppote.Device) string {
 
 func newWorld(viol func(string, string)) *world {
 	w := &world{flags: map[string]bool{}, viol: viol}
-	w.card = types.Card{CardNumber: 8165538, From: types.ToDate(2024, 1, 1), To: types.ToDate(2024, 12, 31), Doors: map[uint8]uint8{1: 1, 2: 0, 3: 29}, PIN: 7531}
+	// (the maps also carry keys outside the protocol's range - door 0 / 5 / 255, weekday -1 / 7 / 8,
+	// segment 0 / 4: whatever an operation makes of them, it leaves the caller's maps as they are)
+	w.card = types.Card{CardNumber: 8165538, From: types.ToDate(2024, 1, 1), To: types.ToDate(2024, 12, 31), Doors: map[uint8]uint8{1: 1, 2: 0, 3: 29, 0: 1, 5: 1, 255: 3}, PIN: 7531}
 	w.profile = types.TimeProfile{ID: 29, LinkedProfileID: 3, From: types.ToDate(2024, 1, 1), To: types.ToDate(2024, 12, 31),
-		Weekdays: types.Weekdays{time.Monday: true, time.Friday: true},
-		Segments: types.Segments{1: {Start: types.NewHHmm(8, 30), End: types.NewHHmm(9, 45)}, 2: {}, 3: {Start: types.NewHHmm(14, 0), End: types.NewHHmm(17, 0)}}}
-	w.task = types.Task{Task: types.EnableMoreCards, Door: 3, From: types.ToDate(2024, 1, 1), To: types.ToDate(2024, 12, 31), Weekdays: types.Weekdays{time.Tuesday: true}, Start: types.NewHHmm(7, 15), Cards: 2}
-	w.readers = map[uint8]bool{1: true, 3: true}
+		Weekdays: types.Weekdays{time.Monday: true, time.Friday: true, time.Weekday(7): true, time.Weekday(-1): true, time.Weekday(8): false},
+		Segments: types.Segments{1: {Start: types.NewHHmm(8, 30), End: types.NewHHmm(9, 45)}, 2: {}, 3: {Start: types.NewHHmm(14, 0), End: types.NewHHmm(17, 0)}, 0: {Start: types.NewHHmm(1, 0), End: types.NewHHmm(2, 0)}, 4: {Start: types.NewHHmm(3, 0), End: types.NewHHmm(4, 0)}}}
+	w.task = types.Task{Task: types.EnableMoreCards, Door: 3, From: types.ToDate(2024, 1, 1), To: types.ToDate(2024, 12, 31), Weekdays: types.Weekdays{time.Tuesday: true, time.Weekday(7): true, time.Weekday(-1): true}, Start: types.NewHHmm(7, 15), Cards: 2}
+	w.readers = map[uint8]bool{1: true, 3: true, 0: true, 5: true, 255: false}
 	w.codes = [8]uint32{12345, 1000000, 54321, 111111, 222222, 333333, 444444, 555555}
 	w.formats = [4]types.CardFormat{types.WiegandAny, types.Wiegand26, types.Wiegand26, types.WiegandAny}
 	return w
